@@ -229,6 +229,25 @@ def run_phase_case(res, d):
     if eps > 0 and removed:
         res.count("floor_cases_with_removed_entries")
         res.nontriv(common.h(d["rng"], eps))
+    if eps > 0:
+        # history: the very same covariances are optimised again with no floor; nothing of the floored run may show
+        args.min_meaningful_covariance = 0
+        raws2 = list(raws)
+        del raws[:]
+        try:
+            out2 = gl.optimize_markov_random_fields(st, data, Pool())
+            for k, c in enumerate(out2.clusters):
+                th2 = np.atleast_2d(np.asarray(c.train_inverse, dtype=np.float64))
+                raw2 = tz.full_from_upper(nn, np.asarray(raws[k], dtype=np.float64)) if k < len(raws) else None
+                ref2 = tz.full_from_upper(nn, np.asarray(raws2[k], dtype=np.float64))
+                if raw2 is None or th2.shape != ref2.shape or not np.array_equal(stack.bits(th2), stack.bits(ref2)):
+                    res.violation("cluster %d: re-optimising the same covariance with no floor (after a run with floor %g) does not return the "
+                                  "optimiser's output: %d entries differ" % (k, eps, int((th2 != ref2).sum()) if th2.shape == ref2.shape else -1), d)
+                    break
+            res.count("refits_without_floor_after_floored_run")
+        except np.linalg.LinAlgError:
+            res.skipped("refit without floor raised LinAlgError")
+        args.min_meaningful_covariance = eps
     after = instrument.snap_model(st)
     for k in range(K):
         if not instrument._arr_equal(after["arrays"][k]["empirical_covariance"], covs[k]):
@@ -271,6 +290,7 @@ def finalize(merged, tier):
     ec.min_counter(merged, out, "mrfs_checked", 150 if q else 1500)
     ec.min_counter(merged, out, "phase_mrfs_checked", 30 if q else 400)
     ec.min_counter(merged, out, "floor_cases_with_removed_entries", 10 if q else 100)
+    ec.min_counter(merged, out, "refits_without_floor_after_floored_run", 20 if q else 200)
     for mode in ("exact", "above_min", "between", "tiny"):
         ec.min_counter(merged, out, "adaptive_floor:" + mode, 4 if q else 40)
     ec.min_counter(merged, out, "result_floats_checked", 1000 if q else 10000)
